@@ -1,16 +1,16 @@
-\* C15 / MemRW.tla -- (G) simulated histories (Debugger API operations) at word size 8
+\* C15 / MemRW.tla -- (G) simulated histories of variable writes
 CONSTANTS
     W = 8
     Lo = 8
-    Hi = 32
-    MaxN = 17
+    Hi = 88
+    MaxN = 1
     MaxOps = 3
-    OpKinds = {"R", "WW"}
+    OpKinds = {"WV"}
     DataKinds = {"pat", "inv"}
     ReadVariant = "tail"
     Emit = "hist"
     Regs = {}
-    InitMem = "pattern"
+    InitMem = "pack"
     DisVariant = "masked"
 SPECIFICATION SpecMem
 VIEW View
